@@ -103,55 +103,10 @@ func runC11(ctx *core.Ctx) {
 	ctx.Rule("R2", "data file committed by its last byte (C12.P1, re-checked here in summary form): the only direct write to the data file is dominated by the digest comparison", 1)
 	reuseAfterRehash(ctx, "R3")
 	c12PutOrder(ctx, "R6")
-	ctx.Rule("R5", "a live data file is never cut under another writer: every value of the data file's open flags that contains O_TRUNC arrives on an edge where the existing file was seen (Stat error nil) and is strictly larger than the expected size; a file of equal or smaller size may be a concurrent writer's copy in progress, and truncating it makes that writer's Put return with a hole in the stored bytes", 1)
 
 	indexRewriteRules(ctx)
-	// R5
-	if cpf := ctx.Need("R5", "cache", "(*Cache).copyFile"); cpf != nil {
-		g := graph(p, cpf)
-		size := cpf.Params[3]
-		trunc := osFlag(p, "O_TRUNC")
-		isSizeCall := func(v ssa.Value) bool {
-			c, ok := v.(*ssa.Call)
-			return ok && c.Call.IsInvoke() && c.Call.Method.Name() == "Size"
-		}
-		for k, open := range g.Calls("os.OpenFile") {
-			key := "cache.copyFile#trunc" + itoa(k+1)
-			arg := open.Call.Args[1]
-			_, leaves := phiWeb(arg)
-			if _, isPhi := arg.(*ssa.Phi); !isPhi {
-				leaves = []leaf{{Val: arg}}
-			}
-			bad := ""
-			for _, l := range leaves {
-				vals, ok := ssax.PossibleInts(l.Val)
-				if !ok {
-					bad = "open flags are not constant"
-					break
-				}
-				has := false
-				for _, v := range vals {
-					if v&trunc != 0 {
-						has = true
-					}
-				}
-				if !has {
-					continue
-				}
-				var facts []ssax.Fact
-				if l.Pred != nil {
-					facts = factsOnEdge(g, l.Pred, l.Phi.Block())
-				} else {
-					facts = g.FactsAtInstr(open)
-				}
-				larger := cmpFact(facts, token.GTR, isSizeCall, isVal(size))
-				if !larger {
-					bad = "O_TRUNC chosen without establishing existing size > expected size"
-				}
-			}
-			ctx.Check(bad == "", "R5", key, open.Pos(), "O_TRUNC on the data file only when the existing file is strictly larger than the expected size %s", bad)
-		}
-	}
+	truncGuard(ctx, "R5", false)
+	expectedIDReadOnly(ctx, "R7")
 	// R2 summary
 	if cpf := ctx.Need("R2", "cache", "(*Cache).copyFile"); cpf != nil {
 		g := graph(p, cpf)
@@ -260,4 +215,125 @@ func indexRewriteRules(ctx *core.Ctx) {
 			ctx.Bad("R1", "cache.putIndexEntry#truncating-writer", c.Pos(), "%s truncates the entry before writing it", ssax.CalleeName(&c.Call))
 		}
 	}
+}
+
+// truncGuard: O_TRUNC on the data file exactly for an over-long existing file.
+// C11 needs "only if" (a smaller or equal file may be another writer's copy in
+// progress); C05's repair clause also needs "if" (an over-long damaged file must
+// be cut, the reader rejects any size but the recorded one).
+func truncGuard(ctx *core.Ctx, rule string, converse bool) {
+	p := ctx.P
+	text := "a live data file is never cut under another writer: every value of the data file's open flags that contains O_TRUNC arrives on an edge where the existing file was seen (Stat error nil) and is strictly larger than the expected size; a file of equal or smaller size may be a concurrent writer's copy in progress, and truncating it makes that writer's Put return with a hole in the stored bytes"
+	if converse {
+		text += "; conversely every flag value without O_TRUNC arrives on an edge where the file was not seen or is not larger (an over-long damaged file that is not cut keeps its tail, and the size gate then rejects it forever)"
+	}
+	ctx.Rule(rule, text, 1)
+	cpf := ctx.Need(rule, "cache", "(*Cache).copyFile")
+	if cpf == nil {
+		return
+	}
+	g := graph(p, cpf)
+	size := cpf.Params[3]
+	trunc := osFlag(p, "O_TRUNC")
+	isSizeCall := func(v ssa.Value) bool {
+		c, ok := v.(*ssa.Call)
+		return ok && c.Call.IsInvoke() && c.Call.Method.Name() == "Size"
+	}
+	var statErr ssa.Value
+	for _, c := range g.Calls("os.Stat") {
+		statErr = ssax.Extracted(c, 1)
+	}
+	for k, open := range g.Calls("os.OpenFile") {
+		key := "cache.copyFile#trunc" + itoa(k+1)
+		arg := open.Call.Args[1]
+		_, leaves := phiWeb(arg)
+		if _, isPhi := arg.(*ssa.Phi); !isPhi {
+			leaves = []leaf{{Val: arg}}
+		}
+		bad := ""
+		for _, l := range leaves {
+			vals, ok := ssax.PossibleInts(l.Val)
+			if !ok {
+				bad = "open flags are not constant"
+				break
+			}
+			has := false
+			for _, v := range vals {
+				if v&trunc != 0 {
+					has = true
+				}
+			}
+			var facts []ssax.Fact
+			if l.Pred != nil {
+				facts = factsOnEdge(g, l.Pred, l.Phi.Block())
+			} else {
+				facts = g.FactsAtInstr(open)
+			}
+			larger := cmpFact(facts, token.GTR, isSizeCall, isVal(size))
+			if has && !larger {
+				bad = "O_TRUNC chosen without establishing existing size > expected size"
+			}
+			if !has && converse {
+				notLarger := cmpFact(facts, token.LEQ, isSizeCall, isVal(size)) || (statErr != nil && ssax.KnownNil(facts, statErr, false))
+				if !notLarger {
+					bad = "flags without O_TRUNC chosen although the existing file may be larger than expected: an over-long file is not cut"
+				}
+			}
+		}
+		ctx.Check(bad == "", rule, key, open.Pos(), "O_TRUNC on the data file exactly when the existing file is strictly larger than the expected size %s", bad)
+	}
+}
+
+// expectedIDReadOnly: the expected output id handed to the data-file copy is
+// compared against, never written: no slice of it is the destination of a hash
+// Sum, a copy or an append, and no element of it is stored to. Writing the
+// freshly computed digest into it makes the "content changed underfoot"
+// comparison a tautology.
+func expectedIDReadOnly(ctx *core.Ctx, rule string) {
+	p := ctx.P
+	ctx.Rule(rule, "the expected output id is read-only in the data-file copy: no slice of it is passed as the destination of a hash Sum, copy or append and none of its elements is assigned; otherwise the digest comparison that guards the committing byte compares the digest with itself", 1)
+	cpf := ctx.Need(rule, "cache", "(*Cache).copyFile")
+	if cpf == nil {
+		return
+	}
+	g := graph(p, cpf)
+	outP := cpf.Params[2]
+	// the local that holds the parameter
+	isOut := func(v ssa.Value) bool {
+		if v == ssa.Value(outP) {
+			return true
+		}
+		al, ok := v.(*ssa.Alloc)
+		if !ok {
+			return false
+		}
+		for _, r := range ssax.Referrers(al) {
+			if st, ok := r.(*ssa.Store); ok && st.Addr == ssa.Value(al) && st.Val == ssa.Value(outP) {
+				return true
+			}
+		}
+		return false
+	}
+	sliceOfOut := func(v ssa.Value) bool {
+		sl, ok := v.(*ssa.Slice)
+		return ok && isOut(sl.X)
+	}
+	bad := ""
+	g.Instrs(func(i ssa.Instruction) {
+		switch x := i.(type) {
+		case *ssa.Call:
+			args := x.Call.Args
+			switch {
+			case x.Call.IsInvoke() && x.Call.Method.Name() == "Sum" && len(args) == 1 && sliceOfOut(args[0]):
+				bad = "a hash Sum appends into the expected id"
+			case (isBuiltinCall(x, "copy") || isBuiltinCall(x, "append")) && len(args) > 0 && sliceOfOut(args[0]):
+				bad = "the expected id is the destination of a copy/append"
+			}
+		case *ssa.Store:
+			if ia, ok := x.Addr.(*ssa.IndexAddr); ok && isOut(ia.X) {
+				bad = "an element of the expected id is assigned"
+			}
+		}
+	})
+	ctx.Check(bad == "", rule, "cache.copyFile#expected-id-readonly", cpf.Pos(), "the expected id is only compared against %s", bad)
 }
